@@ -16,7 +16,7 @@ reg("C06",
     level="model_checking",
     technique="explicit-state BFS over the real server<> + connection + every bound variable (one guarded arena = one linker section, exact-size heap blocks for PDUs, ASan) per value kind x permission option x MTU {23,65}, against a reference byte-array model of the attribute value and of the prepare queue; declared properties and permission options cross-checked against observed behaviour",
     rule="one transition = one l2cap_input call (Write / Write Command / Prepare / Execute / Read / Read Blob / Read Multiple / Read By Type / Read of the declaration / writes to a neighbour) on a restored byte image; states de-duplicated on server + connection + arena + reference queue; after every step the response must equal the reference response and the whole arena the reference arena; classes = distinct (value implementation class, request kind, expected outcome, response class) and (implementation class, option, property byte, read/write observed)",
-    bound="value kinds: bound uint8, uint32, uint8[20], uint8[30], uint8[300] (offsets >= 256 valid), const uint32, fixed_uint8/16/32_value, cstring_value (28), fixed_blob_value (25), free_read+free_raw_write handler (8), free_read_blob+free_write_blob handler (30), read-only, write-only and typed (uint16) write handler; options: plain, no_read_access, no_write_access, write_without_response, only_write_without_response, no_read+no_write (52 configurations thorough, 30 quick) x MTU 23 and 65.  Alphabet: Write and Write Command len 0..n+1 x 2 fill patterns, Prepare offset 0..n+1, {255,256,257,256+n-1,512,0x0201,0xFF00} and 0xFFFF x len {0,1,fit,fit+1}, Execute 0/1, Read, Read Blob offset 0..n+1, {255,256,257,256+n-1,512,0x0201,0xFF00} and 0xFFFF, 3 Read Multiple, Read By Type, Read declaration, Write/Prepare to the neighbour.  quick: depth 3 for both MTUs (n<=4: full alphabet; larger: lengths/offsets {0,1,2,n-1,n,n+1}); thorough: depth 4 at MTU 23 for plain/no_read_access (same alphabet split), depth 3 for write_without_response/only_write_without_response (only the property byte differs) and at MTU 65, plus for n>4 the full alphabet to depth 3 at MTU 65 (depth 2 if it has more than 220 events or at MTU 23); every pass with its alphabet size and depth is listed in the evidence counters",
+    bound="value kinds: bound uint8, uint32, uint8[20], uint8[30], uint8[300] (offsets >= 256 valid), const uint32, fixed_uint8/16/32_value, cstring_value (28), fixed_blob_value (25), free_read+free_raw_write handler (8), free_read_blob+free_write_blob handler (30), read-only, write-only and typed (uint16) write handler; options: plain, no_read_access, no_write_access, write_without_response, only_write_without_response, no_read+no_write (52 configurations thorough, 30 quick) x MTU 23 and 65.  Alphabet: Write and Write Command len 0..n+1 x 2 fill patterns, Prepare offset 0..n+1, {255,256,257,256+n-1,512,0x0201,0xFF00} (quick: {256,256+n-1,0xFF00}) and 0xFFFF x len {0,1,fit,fit+1}, Execute 0/1, Read, Read Blob offset 0..n+1, {255,256,257,256+n-1,512,0x0201,0xFF00} and 0xFFFF, 3 Read Multiple, Read By Type, Read declaration, Write/Prepare to the neighbour.  quick: depth 3 for both MTUs (n<=4: full alphabet; larger: lengths/offsets {0,1,2,n-1,n,n+1}); thorough: depth 4 at MTU 23 for plain/no_read_access (same alphabet split), depth 3 for write_without_response/only_write_without_response (only the property byte differs) and at MTU 65, plus for n>4 the full alphabet to depth 3 at MTU 65 (depth 2 if it has more than 220 events or at MTU 23); every pass with its alphabet size and depth is listed in the evidence counters",
     units=[dict(src="harness/C06_values.cpp", asan=True, variants=_c06_variants)],
     quick_deadline=60, thorough_deadline=540,
     assumptions=[
